@@ -60,8 +60,13 @@ def machine_script(rng, n):
         ret = rng.choice([0x45C0, 0x45C0, 0x45D0])
         for k, x in enumerate(body + [ret]):
             s.append("bus pw %x %x" % (addr + k, x))
-    main = rng.choice(["busy", "busy", "idle", "rep"])
-    if main == "busy":
+    main = rng.choice(["busy", "busy", "idle", "rep", "st2"])
+    if main == "st2":
+        # the main loop saves and restores st2 (push st2 ... pop st2): the three request flags in bits 13..15 are
+        # read-only views of the latches, so a request latched while the saved copy is on the stack must survive the restore
+        # and a request delivered in between must not be set again by it
+        s += ["bus pw 100 5e4a"] + ["bus pw %x 0" % (0x101 + k) for k in range(2)] + ["bus pw 103 5e6a", "bus pw 104 57b0"]
+    elif main == "busy":
         s += ["bus pw 100 0", "bus pw 101 57e0"]
     elif main == "idle":
         s += ["bus pw 100 57f0"]
@@ -185,7 +190,7 @@ def explore(rng, tier, replay=None):
                         rule="(a) random ICU histories on a real Teakra::ICU (complete state set, Trigger / TriggerSingle / Acknowledge "
                              "/ SetEnable / SetEnableVectored / getters, boundary words); (b) whole-machine histories on a real "
                              "Teakra::Teakra: a program with one counting handler per core line (ending in reti or retic, with and "
-                             "without context switch), main code busy / idle / inside a long single-instruction repeat, all 16 vector "
+                             "without context switch), main code busy / idle / inside a long single-instruction repeat / saving and restoring st2 around the request, all 16 vector "
                              "cells, then an interleaving of software triggers, acknowledges, routing-mask writes, global-enable and "
                              "line-mask changes, single steps and short runs, with the pending word, the four handler counters, ie "
                              "and a digest of the whole state read back; model and implementation compared line by line, and the "
